@@ -53,7 +53,7 @@ func (c18) Info() core.Info {
 			"after an injected reader error the sink log may be any prefix covering at least the packets fully delivered before the failing Read; it must never contain a misaligned, duplicated or reordered packet",
 			"a sink that returns a short count without error is outside the statement: only integrity and order of what is delivered are checked after it",
 		},
-		RequiredProbes: []string{"frag_unaligned", "one_byte", "data_with_eof", "partial_tail", "sink_err_first", "sink_err_mid", "reader_err_mid_packet", "via_io_copy", "write_not_multiple", "write_multi_packet", "closer", "adapter_reused", "adapter_reused_after_partial_tail", "reader_is_writerto", "sink_err_full_count", "reader_fails_with_unexpected_eof", "sink_fails_with_eof_value", "more_than_4gib_in_one_call", "sink_type_has_own_write_method"},
+		RequiredProbes: []string{"frag_unaligned", "one_byte", "data_with_eof", "partial_tail", "sink_err_first", "sink_err_mid", "reader_err_mid_packet", "via_io_copy", "write_not_multiple", "write_multi_packet", "closer", "adapter_reused", "adapter_reused_after_partial_tail", "reader_is_writerto", "bufio_reader_smaller_than_a_packet", "sink_err_full_count", "reader_fails_with_unexpected_eof", "sink_fails_with_eof_value", "more_than_4gib_in_one_call", "sink_type_has_own_write_method"},
 	}
 }
 
@@ -444,7 +444,13 @@ func (c18) Exec(script interface{}, c *core.Ctx) {
 				src = bytes.NewReader(data)
 				c.Probe("reader_is_writerto")
 			case "bufio", "bufio_peeked":
-				br := bufio.NewReaderSize(sr, 4096)
+				// a buffer smaller than a packet (bufio's minimum is 16), one that just holds
+				// one, the default size: chosen from the script, no new field needed
+				size := []int{4096, 16, 64, 187, 188, 189, 4096, 376}[(len(data)/188+len(s.Reads)+s.Tail)%8]
+				if size < 188 {
+					c.Probe("bufio_reader_smaller_than_a_packet")
+				}
+				br := bufio.NewReaderSize(sr, size)
 				if wrap == "bufio_peeked" {
 					br.Peek(1)
 				}
